@@ -305,7 +305,10 @@ def K1_loader(rep, flow: Flow, T, tier, exact=True, mode=None, api=("stabilizer_
                         raise AnalysisError(f"loader {lfq} is called with non-constant extra arguments at {ev[4]}")
                     conventions[(extra_pos, kw)] = ev[4]
     if not conventions:
-        raise AnalysisError(f"no call of the loader {lfq} found on the API paths")
+        # the path builds its circuits through the loader's own parts (tokenizer + builder kept in a record): the loader is
+        # evaluated under its plain convention
+        rep.note(f"K1: no direct call of the loader {lfq} on {list(api)}; evaluated with its plain calling convention")
+        conventions[((), ())] = "plain"
     rep.analysed["loader calling conventions on the API paths"] = [f"extra positional {list(k[0])}, keywords {dict(k[1])} (e.g. at {w})" for k, w in conventions.items()]
     _K1_CONV[:] = list(conventions)
     tokens = {}
